@@ -7,8 +7,8 @@ import time
 from framework import findings
 from framework.common import VERIF, canon, case_hash
 
-EVIDENCE_DIR = os.path.join(VERIF, "evidence")
-REPLAY_DIR = os.path.join(VERIF, "replays")
+EVIDENCE_DIR = os.environ.get("NUCS_VERIF_EVIDENCE", os.path.join(VERIF, "evidence"))
+REPLAY_DIR = os.environ.get("NUCS_VERIF_REPLAYS", os.path.join(VERIF, "replays"))
 
 
 class Report:
